@@ -441,6 +441,8 @@ class LogixDriver(CIPDriver):
         return tags
 
     def _get_tag_list(self, program=None):
+        if program is not None and program.startswith("Program:"):
+            program = program[len("Program:"):]  # the scope spelled as in a tag name, the names below add the prefix
         self.__log.info(f'Beginning upload of {program or "controller"} tags...')
         all_tags = self._get_instance_attribute_list_service(program)
         self.__log.info(f'Completed upload of {program or "controller"} tags')
